@@ -105,3 +105,289 @@ Section Walks.
     apply (siblings_before_prefix p pre (x :: post)); assumption.
   Qed.
 End Walks.
+
+(** * every document built by [build_doc] is well-formed *)
+From Coq Require Import Sorted.
+
+Definition sorted_lt (l : list nat) : Prop := StronglySorted lt l.
+
+(* node [nk] at offset k of a segment starting at id [base]: its children lie inside the segment,
+   after it, in increasing order, and point back to it *)
+Definition kid_ok (base : nat) (nodes : list node) (k : nat) (nk : node) : Prop :=
+  sorted_lt (n_children nk) /\
+  forall c, In c (n_children nk) ->
+    base + k < c /\
+    exists nc, nth_error nodes (c - base) = Some nc /\ n_parent nc = Some (base + k) /\
+               is_attr_kind (n_kind nc) = false.
+
+Definition seg_ok (base : nat) (nodes : list node) : Prop :=
+  forall k nk, nth_error nodes k = Some nk -> kid_ok base nodes k nk.
+
+Definition root_ok (parent : nat) (nodes : list node) : Prop :=
+  exists n0 rest, nodes = n0 :: rest /\ n_parent n0 = Some parent /\ is_attr_kind (n_kind n0) = false.
+
+Lemma nth_error_some_lt {A} (l : list A) k x : nth_error l k = Some x -> k < length l.
+Proof. intros H. apply nth_error_Some. congruence. Qed.
+
+Lemma kid_ok_app base l1 l2 k nk : kid_ok base l1 k nk -> kid_ok base (l1 ++ l2) k nk.
+Proof.
+  intros [Hs Hc]. split; [exact Hs|]. intros c Hin. destruct (Hc c Hin) as [Hlt [nc [Hn Hp]]].
+  split; [exact Hlt|]. exists nc. split; [|exact Hp].
+  rewrite nth_error_app1; [exact Hn | eapply nth_error_some_lt; eauto].
+Qed.
+
+Lemma seg_ok_app base l1 l2 : seg_ok base l1 -> seg_ok (base + length l1) l2 -> seg_ok base (l1 ++ l2).
+Proof.
+  intros H1 H2 k nk Hk. destruct (Nat.lt_ge_cases k (length l1)) as [Hlt|Hge].
+  - rewrite nth_error_app1 in Hk by exact Hlt. apply kid_ok_app. apply H1. exact Hk.
+  - rewrite nth_error_app2 in Hk by exact Hge.
+    destruct (H2 _ _ Hk) as [Hs Hc]. split; [exact Hs|].
+    intros c Hin. destruct (Hc c Hin) as [Hlt [nc [Hn [Hp Ha]]]].
+    split; [lia|]. exists nc. split.
+    + rewrite nth_error_app2 by lia. replace (c - base - length l1) with (c - (base + length l1)) by lia. exact Hn.
+    + split; [rewrite Hp; f_equal; lia | exact Ha].
+Qed.
+
+Lemma seg_ok_childless base l : Forall (fun n => n_children n = []) l -> seg_ok base l.
+Proof.
+  intros H k nk Hk. rewrite Forall_forall in H. apply nth_error_In in Hk. unfold kid_ok. rewrite (H _ Hk).
+  split; [constructor | intros c []].
+Qed.
+
+Lemma seg_ok_cons base n0 rest :
+  kid_ok base (n0 :: rest) 0 n0 -> seg_ok (S base) rest -> seg_ok base (n0 :: rest).
+Proof.
+  intros H0 Hr [|k] nk Hk; simpl in Hk.
+  - inversion Hk; subst. exact H0.
+  - destruct (Hr _ _ Hk) as [Hs Hc]. split; [exact Hs|].
+    intros c Hin. destruct (Hc c Hin) as [Hlt [nc [Hn [Hp Ha]]]].
+    split; [lia|]. exists nc. split.
+    + replace (c - base) with (S (c - S base)) by lia. exact Hn.
+    + split; [rewrite Hp; f_equal; lia | exact Ha].
+Qed.
+
+(* the children loop of build_tree, named *)
+Definition build_children (f : nat -> tree -> list node * nat) : list tree -> nat -> list node * list nat * nat :=
+  fix go (l : list tree) (cid : nat) : list node * list nat * nat :=
+    match l with
+    | [] => ([], [], cid)
+    | c :: r =>
+        let (ns, nx) := f cid c in
+        let '(ns', ids', nx') := go r nx in
+        (ns ++ ns', cid :: ids', nx')
+    end.
+
+Lemma build_tree_elem env parent id impl q a ch :
+  build_tree env parent id impl (TElem q a ch) =
+  let attrs := impl ++ a in
+  let env' := decls_of attrs ++ env in
+  let (l, u) := elem_names env' q in
+  let nattr := length attrs in
+  let '(cn, ids, next) := build_children (fun cid c => build_tree env' id cid [] c) ch (S id + nattr) in
+  (mkNode KElem q l u [] (Some parent) (seq (S id) nattr) ids :: map (attr_node env' id) attrs ++ cn, next).
+Proof. reflexivity. Qed.
+
+Definition tree_ok (f : nat -> tree -> list node * nat) (pid : nat) (c : tree) : Prop :=
+  forall cid ns nx, f cid c = (ns, nx) -> nx = cid + length ns /\ seg_ok cid ns /\ root_ok pid ns.
+
+Lemma build_children_ok f pid ch : Forall (tree_ok f pid) ch -> forall start cn ids next,
+  build_children f ch start = (cn, ids, next) ->
+  next = start + length cn /\ seg_ok start cn /\ sorted_lt ids /\
+  forall c, In c ids -> start <= c /\
+    exists nc, nth_error cn (c - start) = Some nc /\ n_parent nc = Some pid /\ is_attr_kind (n_kind nc) = false.
+Proof.
+  induction 1 as [|c r Hc Hr IH]; intros start cn ids next H; cbn [build_children] in H.
+  - inversion H; subst. split; [simpl; lia|]. split; [|split].
+    + intros k nk Hk. destruct k; discriminate.
+    + constructor.
+    + intros c [].
+  - destruct (f start c) as [ns nx] eqn:Ef.
+    destruct (build_children f r nx) as [[ns' ids'] nx'] eqn:Er. inversion H; subst. clear H.
+    destruct (Hc _ _ _ Ef) as [Hnx [Hseg Hroot]]. destruct (IH _ _ _ _ Er) as [Hn' [Hseg' [Hsort' Hids']]].
+    destruct Hroot as [n0 [rest [Hns [Hp0 Ha0]]]].
+    assert (Hlen : 1 <= length ns) by (rewrite Hns; simpl; lia).
+    split; [rewrite app_length; lia|]. split; [|split].
+    + apply seg_ok_app; [exact Hseg|]. rewrite <- Hnx. exact Hseg'.
+    + constructor; [exact Hsort'|]. apply Forall_forall. intros y Hy. destruct (Hids' y Hy). lia.
+    + intros c0 [<-|Hin].
+      * split; [lia|]. exists n0. rewrite Nat.sub_diag, Hns. simpl. auto.
+      * destruct (Hids' c0 Hin) as [Hge [nc [Hn Hp]]]. split; [lia|]. exists nc. split; [|exact Hp].
+        rewrite nth_error_app2 by lia. replace (c0 - start - length ns) with (c0 - nx) by lia. exact Hn.
+Qed.
+
+(* induction principle for the nested tree type *)
+Section TreeInd.
+  Variable P : tree -> Prop.
+  Hypothesis Helem : forall q a ch, Forall P ch -> P (TElem q a ch).
+  Hypothesis Htext : forall s, P (TTextN s).
+  Hypothesis Hcomment : forall s, P (TCommentN s).
+  Hypothesis Hpi : forall t dt, P (TPiN t dt).
+  Fixpoint tree_ind2 (t : tree) : P t :=
+    match t with
+    | TElem q a ch =>
+        Helem q a ch ((fix go (l : list tree) : Forall P l :=
+                         match l with
+                         | [] => Forall_nil P
+                         | c :: r => Forall_cons c (tree_ind2 c) (go r)
+                         end) ch)
+    | TTextN s => Htext s
+    | TCommentN s => Hcomment s
+    | TPiN t dt => Hpi t dt
+    end.
+End TreeInd.
+
+Lemma attr_node_childless env id a : n_children (attr_node env id a) = [].
+Proof.
+  unfold attr_node. destruct a as [q v]. destruct (is_nsdecl_name q); [reflexivity|].
+  destruct (split_colon q) as [[p l]|]; reflexivity.
+Qed.
+
+Lemma leaf_ok parent id n : n_children n = [] -> n_parent n = Some parent -> is_attr_kind (n_kind n) = false ->
+  S id = id + length [n] /\ seg_ok id [n] /\ root_ok parent [n].
+Proof.
+  intros Hc Hp Hk. split; [simpl; lia|]. split.
+  - apply seg_ok_childless. constructor; [exact Hc | constructor].
+  - exists n, []. auto.
+Qed.
+
+Theorem build_tree_ok : forall t env parent id impl nodes next,
+  build_tree env parent id impl t = (nodes, next) ->
+  next = id + length nodes /\ seg_ok id nodes /\ root_ok parent nodes.
+Proof.
+  induction t as [q a ch IH|s|s|tg dt] using tree_ind2; intros env parent id impl nodes next H.
+  - rewrite build_tree_elem in H. cbv zeta in H.
+    set (attrs := impl ++ a) in *. set (env' := decls_of attrs ++ env) in *.
+    destruct (elem_names env' q) as [l u].
+    destruct (build_children (fun cid c => build_tree env' id cid [] c) ch (S id + length attrs))
+      as [[cn ids] nx] eqn:Ec.
+    inversion H; subst. clear H.
+    assert (HF : Forall (tree_ok (fun cid c => build_tree env' id cid [] c) id) ch).
+    { eapply Forall_impl; [|exact IH]. intros c Hc cid ns nx0 Hb. eapply Hc. exact Hb. }
+    destruct (build_children_ok _ _ _ HF _ _ _ _ Ec) as [Hnx [Hseg [Hsort Hids]]].
+    set (an := map (attr_node env' id) attrs).
+    assert (Hlen : length an = length attrs) by (unfold an; apply map_length).
+    split; [simpl; rewrite app_length; lia|]. split.
+    + apply seg_ok_cons.
+      * split; [exact Hsort|]. cbn [n_children]. intros c Hin. destruct (Hids c Hin) as [Hge [nc [Hn Hp]]].
+        split; [lia|]. exists nc. split; [|rewrite Nat.add_0_r; exact Hp].
+        replace (c - id) with (S (length an + (c - (S id + length attrs)))) by lia.
+        simpl. rewrite nth_error_app2 by lia.
+        match goal with |- nth_error cn ?i = _ => replace i with (c - (S id + length attrs)) by lia end.
+        exact Hn.
+      * apply seg_ok_app.
+        -- apply seg_ok_childless. apply Forall_forall. intros n Hn. unfold an in Hn.
+           apply in_map_iff in Hn. destruct Hn as [x [<- _]]. apply attr_node_childless.
+        -- rewrite Hlen. exact Hseg.
+    + eexists _, _. split; [reflexivity|]. split; reflexivity.
+  - inversion H; subst. apply leaf_ok; reflexivity.
+  - inversion H; subst. apply leaf_ok; reflexivity.
+  - inversion H; subst. apply leaf_ok; reflexivity.
+Qed.
+
+Lemma sorted_lt_nodup l : sorted_lt l -> NoDup l.
+Proof.
+  induction 1 as [|a l Hs IH Hall]; constructor; [|exact IH].
+  intros Hin. rewrite Forall_forall in Hall. specialize (Hall _ Hin). lia.
+Qed.
+
+Lemma sorted_lt_snoc l x : sorted_lt l -> (forall y, In y l -> y < x) -> sorted_lt (l ++ [x]).
+Proof.
+  induction 1 as [|a l Hs IH Hall]; intros Hx; simpl.
+  - constructor; constructor.
+  - constructor.
+    + apply IH. intros y Hy. apply Hx. right. exact Hy.
+    + apply Forall_app. split; [exact Hall|]. constructor; [|constructor]. apply Hx. left. reflexivity.
+Qed.
+
+Lemma get_nth_error d i n : nth_error d i = Some n -> get d i = n.
+Proof. intros H. unfold get. apply nth_error_nth. exact H. Qed.
+
+Lemma get_out_of_range d i : length d <= i -> get d i = dummy_node.
+Proof. intros H. unfold get. apply nth_overflow. exact H. Qed.
+
+Lemma seg_ok_wf d : seg_ok 0 d -> wf d.
+Proof.
+  intros H. split.
+  - intros i c Hin. destruct (nth_error d i) as [ni|] eqn:E.
+    + rewrite (get_nth_error _ _ _ E) in Hin. destruct (H _ _ E) as [_ Hc].
+      destruct (Hc c Hin) as [_ [nc [Hn [Hp Ha]]]]. rewrite Nat.sub_0_r in Hn.
+      rewrite (get_nth_error _ _ _ Hn). simpl in Hp. auto.
+    + apply nth_error_None in E. rewrite (get_out_of_range _ _ E) in Hin. destruct Hin.
+  - intros i. destruct (nth_error d i) as [ni|] eqn:E.
+    + rewrite (get_nth_error _ _ _ E). apply sorted_lt_nodup. apply (H _ _ E).
+    + apply nth_error_None in E. rewrite (get_out_of_range _ _ E). constructor.
+Qed.
+
+(* the accumulator of build_doc's fold *)
+Definition doc_step (acc : list node * list nat * nat * bool) (t : tree) :=
+  let '(ns, ids, nx, seen) := acc in
+  let is_el := match t with TElem _ _ _ => true | _ => false end in
+  let impl := if is_el && negb seen then [(s_xmlns_colon ++ s_xml, s_xml_uri)] else [] in
+  let (tn, nx') := build_tree [(s_xml, s_xml_uri)] 0 nx impl t in
+  (ns ++ tn, ids ++ [nx], nx', seen || is_el).
+
+Definition acc_ok (acc : list node * list nat * nat * bool) : Prop :=
+  let '(ns, ids, nx, _) := acc in
+  nx = 1 + length ns /\ seg_ok 1 ns /\ sorted_lt ids /\
+  forall c, In c ids -> 1 <= c /\ c < nx /\
+    exists nc, nth_error ns (c - 1) = Some nc /\ n_parent nc = Some 0 /\ is_attr_kind (n_kind nc) = false.
+
+Lemma doc_step_ok acc t : acc_ok acc -> acc_ok (doc_step acc t).
+Proof.
+  destruct acc as [[[ns ids] nx] seen]. intros [Hnx [Hseg [Hsort Hids]]]. unfold doc_step.
+  match goal with |- context [build_tree _ 0 nx ?i t] => set (impl := i) end.
+  destruct (build_tree [(s_xml, s_xml_uri)] 0 nx impl t) as [tn nx'] eqn:E.
+  destruct (build_tree_ok _ _ _ _ _ _ _ E) as [Hn' [Hseg' [n0 [rest [Htn [Hp0 Ha0]]]]]].
+  unfold acc_ok. split; [rewrite app_length; lia|]. split; [|split].
+  - apply seg_ok_app; [exact Hseg|]. replace (1 + length ns) with nx by lia. exact Hseg'.
+  - apply sorted_lt_snoc; [exact Hsort|]. intros y Hy. destruct (Hids y Hy). lia.
+  - assert (Hl : 1 <= length tn) by (rewrite Htn; simpl; lia).
+    intros c Hin. apply in_app_or in Hin. destruct Hin as [Hin|[<-|[]]].
+    + destruct (Hids c Hin) as [H1 [H2 [nc [Hn Hp]]]]. split; [lia|]. split; [lia|].
+      exists nc. split; [|exact Hp]. rewrite nth_error_app1; [exact Hn | eapply nth_error_some_lt; eauto].
+    + split; [lia|]. split; [lia|]. exists n0. split; [|auto].
+      rewrite nth_error_app2 by lia. replace (nx - 1 - length ns) with 0 by lia. rewrite Htn. reflexivity.
+Qed.
+
+Lemma fold_doc_step_ok top : forall acc, acc_ok acc -> acc_ok (fold_left doc_step top acc).
+Proof. induction top as [|t top IH]; intros acc H; simpl; [exact H | apply IH, doc_step_ok, H]. Qed.
+
+Lemma build_doc_eq top :
+  build_doc top =
+  let '(nodes, ids, _, _) := fold_left doc_step top ([], [], 1, false) in
+  mkNode KDoc [35;100;111;99;117;109;101;110;116]%N [] [] [] None [] ids :: nodes.
+Proof. reflexivity. Qed.
+
+Theorem build_doc_wf top : wf (build_doc top).
+Proof.
+  rewrite build_doc_eq.
+  assert (H0 : acc_ok ([], [], 1, false)).
+  { split; [reflexivity|]. split; [intros k nk Hk; destruct k; discriminate|]. split; [constructor | intros c []]. }
+  pose proof (fold_doc_step_ok top _ H0) as H.
+  destruct (fold_left doc_step top ([], [], 1, false)) as [[[ns ids] nx] seen].
+  destruct H as [Hnx [Hseg [Hsort Hids]]].
+  apply seg_ok_wf. apply seg_ok_cons; [|exact Hseg].
+  split; [exact Hsort|]. cbn [n_children]. intros c Hin.
+  destruct (Hids c Hin) as [H1 [H2 [nc [Hn Hp]]]]. split; [lia|]. exists nc. split; [|exact Hp].
+  replace (c - 0) with (S (c - 1)) by lia. exact Hn.
+Qed.
+
+(* so, on every document the generators can build, the sibling walks enumerate the child lists *)
+Corollary child_axis_on_built_documents top p :
+  let d := build_doc top in
+  siblings_after d (S (length d)) (first_child d p) = n_children (get d p).
+Proof.
+  intros d. apply child_walk; [apply build_doc_wf|].
+  (* a duplicate-free list of ids below length d is no longer than d *)
+  destruct (nth_error d p) as [np|] eqn:E.
+  - rewrite (get_nth_error _ _ _ E).
+    assert (Hw := build_doc_wf top). fold d in Hw.
+    assert (Hnd : NoDup (n_children np)) by (rewrite <- (get_nth_error _ _ _ E); apply (wf_nodup d Hw)).
+    assert (Hincl : incl (n_children np) (seq 0 (length d))).
+    { intros c Hc. apply in_seq. split; [lia|]. simpl.
+      rewrite <- (get_nth_error _ _ _ E) in Hc. destruct (wf_parent d Hw p c Hc) as [Hp _].
+      destruct (Nat.lt_ge_cases c (length d)) as [Hlt|Hge]; [exact Hlt|].
+      rewrite (get_out_of_range _ _ Hge) in Hp. discriminate. }
+    pose proof (NoDup_incl_length Hnd Hincl) as Hl. rewrite seq_length in Hl. lia.
+  - apply nth_error_None in E. rewrite (get_out_of_range _ _ E). simpl. lia.
+Qed.
